@@ -325,9 +325,20 @@ def _gen_op(rng, system):
           'db_vect': None, 'scale': rng.random() < 0.4, 'atol': _atol_choice(rng), 'kw': _gen_kwargs(rng, system, fn),
           'note': []}
     atol_eff = DEFAULT_ATOL if op['atol'] is None else op['atol']
+    targets = []
 
     def site_pos(i):
+        nonlocal atol_eff
         base = [Fraction(x) for x in system.atoms.pos[i].tolist()]
+        targets.append(i)
+        if n >= 2 and rng.random() < 0.12:
+            # ambiguous on purpose: a tolerance that also reaches another atom
+            j = rng.choice([q for q in range(n) if q != i])
+            st = {'pbc': [bool(b) for b in system.pbc], 'vects': V}
+            d = float(_d2(st, base, [Fraction(x) for x in system.atoms.pos[j].tolist()])) ** 0.5
+            if d > 0:
+                op['atol'] = atol_eff = 1.25 * d
+                op['note'].append('ambiguous')
         shift = [0, 0, 0]
         r = rng.random()
         if r < 0.35:
@@ -372,8 +383,14 @@ def _gen_op(rng, system):
         mode = rng.choice(['idx'] * 7 + ['pos'] * 10 + ['both', 'neither'])
         if mode in ('idx', 'both'):
             op['ptd_id'] = rng.randint(-n - 2, n + 1)
+            if -n <= op['ptd_id'] < n:
+                targets.append(op['ptd_id'] % n)
         if mode in ('pos', 'both'):
             op['pos'] = site_pos(rng.randrange(n))
+        if fn == 'substitutional' and targets and rng.random() < 0.7:
+            # mostly a real substitution (a type the atom does not have); the rest exercises the refusal
+            cur = int(system.atoms.atype[targets[0]])
+            op['kw']['atype'] = rng.choice([t for t in (1, 2, 3, 4) if t != cur])
     if fn == 'dumbbell':
         if op['scale']:
             op['db_vect'] = [cm.dyadic(rng, -0.25, 0.25, 5) for _ in range(3)]
@@ -530,6 +547,8 @@ def _exact_inputs(st, op):
         vals += list(op['pos'])
     if op['db_vect'] is not None:
         vals += list(op['db_vect'])
+    if op['atol'] is not None:
+        vals.append(op['atol'])
     return all(_is_dyadic(x) for x in vals)
 
 
@@ -736,7 +755,7 @@ def _nontrivial(op, out):
 
 def correspond(ctx):
     rng = ctx.rng
-    nsys = ctx.n(260, 4000)
+    nsys = ctx.n(600, 6000)
     lines, checks = [], []
     dist = {}
     for it in range(nsys):
@@ -978,7 +997,7 @@ def _special_cases(ctx, rng):
 
 def search(ctx, broken):
     rng = random.Random(ctx.seed * 7919 + 15)
-    nsys = ctx.n(110, 2500) * (3 if broken else 1)
+    nsys = ctx.n(300, 4000) * (3 if broken else 1)
     for it in range(nsys):
         desc = _gen_system(rng)
 
